@@ -550,7 +550,9 @@ class WFSA:
 
         def get_new_state():
             nonlocal state_counter
-            state = f"_bytes{state_counter}"
+            # named after the arc (i, a, j) being expanded, so that chain states
+            # stay distinct when several converted automata are merged
+            state = ("_bytes", i, a, j, state_counter)
             state_counter += 1
             return state
 
